@@ -24,10 +24,11 @@ import (
 // ---- the real thruserv binary --------------------------------------------------------------
 
 type server struct {
-	cmd  *exec.Cmd
-	port int
-	url  string
-	out  *bytes.Buffer
+	cmd    *exec.Cmd
+	port   int
+	url    string
+	out    *bytes.Buffer
+	exited chan struct{}
 }
 
 func freePort() int {
@@ -50,8 +51,10 @@ func startServer(bin string, env []string, flags ...string) (*server, error) {
 		if err := s.cmd.Start(); err != nil {
 			return nil, err
 		}
+		s.exited = make(chan struct{})
+		go func(s *server) { s.cmd.Wait(); close(s.exited) }(s)
 		ok := false
-		for i := 0; i < 200; i++ {
+		for i := 0; i < 300; i++ {
 			resp, err := http.Get(s.url + "/health")
 			if err == nil {
 				resp.Body.Close()
@@ -59,6 +62,15 @@ func startServer(bin string, env []string, flags ...string) (*server, error) {
 				break
 			}
 			time.Sleep(10 * time.Millisecond)
+		}
+		if ok {
+			// the port was picked before the start: if another process took it in between, the health
+			// answer came from that one and our own server has exited (bind error)
+			select {
+			case <-s.exited:
+				ok = false
+			case <-time.After(60 * time.Millisecond):
+			}
 		}
 		if ok {
 			return s, nil
@@ -71,7 +83,11 @@ func startServer(bin string, env []string, flags ...string) (*server, error) {
 func (s *server) stop() {
 	if s.cmd != nil && s.cmd.Process != nil {
 		s.cmd.Process.Kill()
-		s.cmd.Wait()
+		if s.exited != nil {
+			<-s.exited
+		} else {
+			s.cmd.Wait()
+		}
 	}
 }
 
@@ -448,6 +464,11 @@ func createN(s *server, n int, concurrent bool) (ok int, codes []string, statuse
 	ch := make(chan r, n)
 	one := func() {
 		_, code, _, err := clienthttp.CreateSession(context.Background(), s.url, 0)
+		for try := 0; err != nil && try < 3 && (strings.Contains(err.Error(), "send request") || strings.Contains(err.Error(), "read response")); try++ {
+			// transport-level trouble (not an answer of the server): once more
+			time.Sleep(50 * time.Millisecond)
+			_, code, _, err = clienthttp.CreateSession(context.Background(), s.url, 0)
+		}
 		ch <- r{code, err}
 	}
 	for i := 0; i < n; i++ {
@@ -465,6 +486,24 @@ func createN(s *server, n int, concurrent bool) (ok int, codes []string, statuse
 		}
 	}
 	return
+}
+
+// mustCreate creates n sessions on a server whose limits allow it; failing that the harness (not the
+// server under test) is in trouble and the run is abandoned.
+func mustCreate(s *server, n int) []string {
+	var codes []string
+	for try := 0; try < 20 && len(codes) < n; try++ {
+		_, more, _ := createN(s, n-len(codes), false)
+		codes = append(codes, more...)
+		if len(codes) < n {
+			time.Sleep(100 * time.Millisecond)
+		}
+	}
+	if len(codes) < n {
+		fmt.Fprintf(os.Stderr, "harness trouble: could not create %d session(s) on %s; server log: %s\n", n, s.url, tailStr(s.out.String(), 400))
+		os.Exit(3)
+	}
+	return codes
 }
 
 func wsURL(s *server, code, peer, role string) string {
@@ -533,7 +572,7 @@ func LimitsCheck(args []string) {
 			}})
 		cases = append(cases, limitsCase{Name: fmt.Sprintf("max-receivers=%d sequential", n), Flags: off("--max-receivers-per-sender", fmt.Sprint(n)),
 			Run: func(s *server, v func(string, map[string]any)) {
-				_, codes, _ := createN(s, 1, false)
+				codes := mustCreate(s, 1)
 				host, _, _ := dialWS(wsURL(s, codes[0], "host", "sender"))
 				var rs []*wsClient
 				okc := 0
@@ -548,7 +587,7 @@ func LimitsCheck(args []string) {
 					v("receiver_limit_not_exact_sequential", map[string]any{"limit": n, "admitted": okc})
 				}
 				// a second session is not affected by the first one's receivers
-				_, codes2, _ := createN(s, 1, false)
+				codes2 := mustCreate(s, 1)
 				if c, _, err := dialWS(wsURL(s, codes2[0], "r-other", "receiver")); err != nil {
 					v("receiver_limit_counts_other_sessions", map[string]any{"limit": n})
 				} else {
@@ -576,7 +615,7 @@ func LimitsCheck(args []string) {
 		cases = append(cases, limitsCase{Name: fmt.Sprintf("max-receivers=%d burst", n), Flags: off("--max-receivers-per-sender", fmt.Sprint(n)),
 			Env: []string{"VERIF_HOOK_DELAY=serv.ws.limits.checked@120"},
 			Run: func(s *server, v func(string, map[string]any)) {
-				_, codes, _ := createN(s, 1, false)
+				codes := mustCreate(s, 1)
 				var mu sync.Mutex
 				okc := 0
 				var wg sync.WaitGroup
@@ -605,7 +644,7 @@ func LimitsCheck(args []string) {
 		cases = append(cases, limitsCase{Name: fmt.Sprintf("max-ws-connections=%d burst", n), Flags: off("--max-ws-connections", fmt.Sprint(n)),
 			Env: []string{"VERIF_HOOK_DELAY=serv.ws.limits.checked@80"},
 			Run: func(s *server, v func(string, map[string]any)) {
-				_, codes, _ := createN(s, 1, false)
+				codes := mustCreate(s, 1)
 				var mu sync.Mutex
 				okc := 0
 				var wg sync.WaitGroup
@@ -648,6 +687,9 @@ func LimitsCheck(args []string) {
 				}
 				seen[c] = true
 			}
+			if len(codes) == 0 {
+				return
+			}
 			host, _, _ := dialWS(wsURL(s, codes[0], "host", "sender"))
 			okc := 0
 			var keep []*wsClient
@@ -671,7 +713,7 @@ func LimitsCheck(args []string) {
 	cases = append(cases, limitsCase{Name: "session-timeout expiry", Flags: append(off(), "--session-timeout", "600ms"),
 		Run: func(s *server, v func(string, map[string]any)) {
 			t0 := time.Now()
-			_, codes, _ := createN(s, 1, false)
+			codes := mustCreate(s, 1)
 			c1, _, err := dialWS(wsURL(s, codes[0], "host", "sender"))
 			if err != nil {
 				v("join_with_live_code_rejected", map[string]any{"after_ms": time.Since(t0).Milliseconds()})
@@ -706,7 +748,7 @@ func LimitsCheck(args []string) {
 		st := st
 		cases = append(cases, limitsCase{Name: "host disconnect ends the code (session-timeout " + st + ")", Flags: append(off(), "--session-timeout", st),
 			Run: func(s *server, v func(string, map[string]any)) {
-				_, codes, _ := createN(s, 2, false)
+				codes := mustCreate(s, 2)
 				host, _, _ := dialWS(wsURL(s, codes[0], "host", "sender"))
 				r1, _, err := dialWS(wsURL(s, codes[0], "r1", "receiver"))
 				if err != nil {
@@ -738,7 +780,7 @@ func LimitsCheck(args []string) {
 	}
 	cases = append(cases, limitsCase{Name: "max-message-bytes", Flags: append(off(), "--max-message-bytes", "512"),
 		Run: func(s *server, v func(string, map[string]any)) {
-			_, codes, _ := createN(s, 1, false)
+			codes := mustCreate(s, 1)
 			a, _, _ := dialWS(wsURL(s, codes[0], "a", "sender"))
 			b, _, _ := dialWS(wsURL(s, codes[0], "b", "receiver"))
 			mk := func(total int, id string) []byte {
@@ -769,7 +811,7 @@ func LimitsCheck(args []string) {
 		}})
 	cases = append(cases, limitsCase{Name: "ws-msgs-per-sec", Flags: append(off("--ws-msgs-per-sec", "5"), "--ws-msgs-burst", "10"),
 		Run: func(s *server, v func(string, map[string]any)) {
-			_, codes, _ := createN(s, 1, false)
+			codes := mustCreate(s, 1)
 			a, _, _ := dialWS(wsURL(s, codes[0], "a", "sender"))
 			b, _, _ := dialWS(wsURL(s, codes[0], "b", "receiver"))
 			t0 := time.Now()
@@ -807,7 +849,7 @@ func LimitsCheck(args []string) {
 		}})
 	cases = append(cases, limitsCase{Name: "ws-connects burst", Flags: append(off("--ws-connects-per-min", "60"), "--ws-connects-burst", "4"),
 		Run: func(s *server, v func(string, map[string]any)) {
-			_, codes, _ := createN(s, 1, false)
+			codes := mustCreate(s, 1)
 			t0 := time.Now()
 			okc := 0
 			var keep []*wsClient
